@@ -17,7 +17,7 @@ namespace AsmjitVerif.Invoke
 open AsmjitVerif.CallConv
 
 inductive Mnm
-  | mov | movsx | movzx | movsxd | lea | movaps | movups | movd | movq | movss | movlps | and_ | sub | call | other | str | ldr
+  | mov | movsx | movzx | movsxd | lea | movaps | movups | movd | movq | movss | movlps | and_ | sub | call | other | str | ldr | strb | strh
   deriving DecidableEq, Repr
 
 inductive XOp
@@ -328,7 +328,7 @@ def a64OnBeforeInvoke (d : Detail) (ops : List ArgOp) (css0 : Nat) : Except Stri
 def Mnm.text : Mnm → String
   | .mov => "mov" | .movsx => "movsx" | .movzx => "movzx" | .movsxd => "movsxd" | .lea => "lea" | .movaps => "movaps"
   | .movups => "movups" | .movd => "movd" | .movq => "movq" | .movss => "movss" | .movlps => "movlps" | .and_ => "and"
-  | .sub => "sub" | .call => "call" | .other => "?" | .str => "str" | .ldr => "ldr"
+  | .sub => "sub" | .call => "call" | .other => "?" | .str => "str" | .ldr => "ldr" | .strb => "strb" | .strh => "strh"
 
 def hexOf (v : BitVec 64) : String := String.ofList (Nat.toDigits 16 v.toNat)
 
